@@ -2242,7 +2242,7 @@ pub mod verif_trace {
             open_upvalues,
             handling_exception: vm.handling_exception,
             return_pending: fiber.return_ip.is_some(),
-            fiber_ptr_ok: vm.unsafe_fiber as usize == root.as_gc().as_ptr() as usize,
+            fiber_ptr_ok: vm.unsafe_fiber as usize == std::cell::RefCell::as_ptr(&**root) as usize,
             has_caller: fiber.caller.is_some(),
         };
         TRACE.with(|t| t.borrow_mut().push(rec));
